@@ -170,42 +170,36 @@ pub fn explore<S: System>(cfg: &Config, factory: &(dyn Fn() -> S + Sync)) -> (St
 	let mut stats = Stats { deviation_bound_requested: cfg.max_deviations, ..Default::default() };
 	sh.next_levels.lock().unwrap().insert(0, vec![Task { base: Arc::new(Vec::new()), cut: 0, alt: None, used: 0 }]);
 	let mut level = 0u32;
+	stats.executions_per_level.push(0);
 	loop {
-		let tasks = match sh.next_levels.lock().unwrap().remove(&level) {
-			Some(t) => t,
-			None => Vec::new(),
-		};
-		let before = sh.executions.load(Ordering::Relaxed);
-		if !tasks.is_empty() {
-			let q = WorkQueue::new(tasks);
-			let capped = q.run(cfg.threads, deadline, |t, _q| run_one::<S>(cfg, factory, &sh, t));
-			if capped {
-				stats.capped = true;
-			}
-		}
-		stats.executions_per_level.push(sh.executions.load(Ordering::Relaxed) - before);
-		if stats.capped {
-			break;
-		}
-		let has_viol = !sh.violations.lock().unwrap().is_empty();
-		if !has_viol || cfg.branch_below_violations {
+		// zero-cost alternatives put new tasks on the level being processed: drain it repeatedly
+		let tasks = sh.next_levels.lock().unwrap().remove(&level).unwrap_or_default();
+		if tasks.is_empty() {
 			stats.deviation_bound_completed = Some(level);
-		} else {
-			// the level ran to completion but produced violations: it *is* completed as an enumeration
-			stats.deviation_bound_completed = Some(level);
-			if !cfg.branch_below_violations {
+			let has_viol = !sh.violations.lock().unwrap().is_empty();
+			if has_viol && !cfg.branch_below_violations {
 				break;
 			}
+			if level >= cfg.max_deviations {
+				break;
+			}
+			if sh.next_levels.lock().unwrap().is_empty() {
+				// nothing deeper exists: the whole space is covered for any bound
+				stats.deviation_bound_completed = Some(cfg.max_deviations);
+				break;
+			}
+			level += 1;
+			stats.executions_per_level.push(0);
+			continue;
 		}
-		if level >= cfg.max_deviations {
+		let before = sh.executions.load(Ordering::Relaxed);
+		let q = WorkQueue::new(tasks);
+		let capped = q.run(cfg.threads, deadline, |t, _q| run_one::<S>(cfg, factory, &sh, t));
+		*stats.executions_per_level.last_mut().unwrap() += sh.executions.load(Ordering::Relaxed) - before;
+		if capped {
+			stats.capped = true;
 			break;
 		}
-		if sh.next_levels.lock().unwrap().is_empty() {
-			// nothing deeper exists: the whole space is covered for any bound
-			stats.deviation_bound_completed = Some(cfg.max_deviations);
-			break;
-		}
-		level += 1;
 	}
 	stats.executions = sh.executions.load(Ordering::Relaxed);
 	stats.transitions = sh.transitions.load(Ordering::Relaxed);
@@ -280,7 +274,7 @@ fn run_one<S: System>(cfg: &Config, factory: &(dyn Fn() -> S + Sync), sh: &Share
 				return Err(Failure::new("horizon", format!("no quiescence after {} steps", done.len())));
 			}
 			for (a, c) in en.iter().skip(1) {
-				let c = (*c).max(1);
+				let c = *c;
 				if c <= budget_left {
 					children.push((done.len(), a.clone(), c));
 				}
